@@ -11,6 +11,8 @@ import Vata.Proofs.InclDownInv
 import Vata.Proofs.InclDownTotal
 import Vata.Proofs.InclUpSim
 import Vata.Properties.Dispatch
+import Vata.Properties.C07_BddSim
+import Vata.Properties.C01
 /-!
 # C07 – Inclusion on BDD-encoded (semi-symbolic) tree automata is exact
 
@@ -29,8 +31,10 @@ import Vata.Properties.Dispatch
   BDD selection is compared with it; so is (C01) the verdict of every explicit selection, which gives "the verdict
   equals the one obtained in the explicit encoding".
 * **Models of the code – on the ABSTRACT automaton.**  The BDD encoding itself is read as the identity on `TA`: the
-  MTBDD `GetMtbdd(tuple)` is the function `symbol ↦ {parent | symbol(tuple) → parent}` (that the transition tables denote
-  exactly the rules that were added is C08, `Vata/BddAbs.lean`).  On this reading
+  MTBDD `GetMtbdd(tuple)` is the function `symbol ↦ {parent | symbol(tuple) → parent}`.  That this reading is right is C08:
+  the transition tables of BOTH encodings denote exactly the rules that were added, and `GetTopDownAut` keeps the abstract
+  automaton up to rules whose parent is unreachable top-down (`C08_load_dump`, `C08_getTopDownAut` in
+  `Vata/Properties/C08_Tables.lean`).  On this reading
   - `inclUpBdd A B fuel` (`Vata/InclUpBdd.lean`) mirrors `CheckUpwardTreeInclusion` with `UpwardInclusionFunctor` and
     `ForeachUpSymbolFromTupleAndTupleSetDo` (bottom-up encoding, `ANTICHAINS_UP_NOSIM`): antichain and work-set of pairs
     `(q, S)`, and for every tuple of the transition table that contains the processed state **one macro-state chosen per
@@ -48,8 +52,12 @@ import Vata.Properties.Dispatch
     sanitises both operands, computes the downward simulation on their disjoint union itself, converts to top-down form
     and calls the top-down `DOWN_REC_SIM`: the model is `inclDownSim A' B' (downSimRef (unionDisjoint A' B'))` on
     `(A', B') = sanitize A B` (`C07_bu_downward_sim_exact`); the conversion `GetTopDownAut` is the identity on the abstract
-    automaton.
-  All models end certify-then-trust; `none` = fuel exhausted, never a verdict.
+    automaton.  With the relation as the simulation CODE computes it (`BddSim.bddDownSim`, `Vata/BddSim.lean`, checked against
+    `BDDBUTreeAutCore::ComputeDownwardSimulation` by the `bddsim` cases) the route is the function `buDownSimRoute` of this
+    file, exact and total (`C07_bu_downward_sim_chain`; the theorems about the relation are in
+    `Vata/Properties/C07_BddSim.lean`).
+  All models end certify-then-trust; `none` = fuel exhausted, never a verdict.  `C07Sel` (end of the file) lists the seven
+  selections with their models; `C07_every_selection_exact` is the property as one theorem.
 * **Dispatch.**  `Vata.Gen.tdDispatch`, `Vata.Gen.buDispatch` are the two `switch (params.GetOptions())`, regenerated from
   the C++ sources on every run (`Vata/Properties/Dispatch.lean`).
 -/
@@ -77,8 +85,9 @@ example : (checkInclUp InclUpEx.exG InclUpEx.exH 10).map (·.1) = some false ∧
 
 /-- the encoding-independent principles of the upward (bottom-up encoding) and downward (both encodings) algorithms:
 a set of pairs closed under the post-image with one chosen macro-state per child and without bad pair, resp. closed
-under choice-function expansion and covering the final states, proves inclusion.  Partial: the symbolic explorations
-that are supposed to produce such sets are not modelled -/
+under choice-function expansion and covering the final states, proves inclusion.  Partial: only the principles; that the
+explorations produce such sets is `C07_bu_upward_exploration_certified` (bottom-up, upward) and
+`C01_downward_exploration_certified` (the downward templates shared with the explicit encoding) -/
 theorem C07_certificates_partial (A B : TA) (X : List (Nat × List Nat)) :
     (UpCert A B X → (∀ q S, (q, S) ∈ X → q ∈ A.final → ∃ s, s ∈ S ∧ s ∈ B.final) → Incl A B) ∧
     (DownCert A B X → (∀ f, f ∈ A.final → Sub X f B.final) → Incl A B) :=
@@ -313,29 +322,164 @@ example : (⟨"ANTICHAINS_UP_NOSIM", 0, "bddUp", "UpwardInclusionFunctor", "-", 
 example : Dispatch.simConsistent ⟨"X", 26, "viaTopDown", "-", "-", "true", "given"⟩ = false ∧
     Dispatch.treeConsistent ⟨"X", 10, "bddUp", "-", "-", "true", "identity"⟩ = false := by decide
 
+/-! ### the bottom-up route "downward + simulation" as one function, with the simulation code as written -/
+
+/-- `BDDBUTreeAutCore::CheckInclusion`, case `ANTICHAINS_DOWN_REC_SIM`, end to end: `SanitizeAutsForInclusion`, the disjoint
+union, `ComputeDownwardSimulation(n)` AS CODED (`BddSim.bddDownSim`, `Vata/BddSim.lean`, run with its own iteration bound),
+then the recursive downward inclusion pruned by the relation it returned (`fuel` = nesting depth of the calls) -/
+def buDownSimRoute (A B : TA) (fuel : Nat) : Option (Bool × Cert) :=
+  (BddSim.bddDownSim (unionDisjoint (sanitize A B).1 (sanitize A B).2.1) (sanitize A B).2.2
+      (BddSim.fuelBound (unionDisjoint (sanitize A B).1 (sanitize A B).2.1))).bind
+    (fun R => inclDownSim (sanitize A B).1 (sanitize A B).2.1 R fuel)
+
+/-- **the chain sanitise → union → `bddDownSim` → pruned inclusion is exact and total.**  Every verdict of the route is the
+truth of `L(A) ⊆ L(B)` for the ORIGINAL operands, and for every fuel above the bound `|Q_A'|·2^|Q_B'|` of the prepared operands
+the route returns that verdict – the simulation code terminates within its bound, its result passes the validation of the
+inclusion model, the rule children of the prepared operand are productive.  No hypothesis on `A`, `B`.
+(`C07_bu_downward_sim_exact` is the same with the reference relation `downSimRef` in the place of the code's.) -/
+theorem C07_bu_downward_sim_chain (A B : TA) :
+    (∀ fuel b c, buDownSimRoute A B fuel = some (b, c) → (b = true ↔ Incl A B)) ∧
+    (∀ fuel, InclDown.fuelBoundD (sanitize A B).1 (sanitize A B).2.1 < fuel →
+      (Incl A B → ∃ c, buDownSimRoute A B fuel = some (true, c)) ∧
+      (¬ Incl A B → ∃ c, buDownSimRoute A B fuel = some (false, c))) := by
+  obtain ⟨R, hR, _, hex, htot⟩ := C07_bddsim_bu_downward_sim_exact A B _ _ _ _ rfl rfl rfl rfl
+  have e : ∀ fuel, buDownSimRoute A B fuel = inclDownSim (sanitize A B).1 (sanitize A B).2.1 R fuel := by
+    intro fuel; unfold buDownSimRoute; rw [hR]; rfl
+  exact ⟨fun fuel b c h => hex fuel b c (e fuel ▸ h), fun fuel hf => by rw [e fuel]; exact htot fuel hf⟩
+
+-- operands that overlap (state 7 in both), the first not trimmed: both verdicts
+example : (buDownSimRoute SanEx.exA SanEx.exB 20).map (·.1) = some true ∧
+    (buDownSimRoute SanEx.exB SanEx.exA 20).map (·.1) = some false := by decide
+example : InclDown.fuelBoundD (sanitize SanEx.exA SanEx.exB).1 (sanitize SanEx.exA SanEx.exB).2.1 < 20 := by decide
+
+/-! ### ONE theorem for "each implemented inclusion algorithm" of the two BDD encodings -/
+
+/-- the seven implemented selections: top-down encoding – downward recursive, without / with the implication cache,
+without / with a simulation; bottom-up encoding – upward, upward "with simulation", downward with simulation -/
+inductive C07Sel where
+  | tdRec | tdRecOpt | tdRecSim | tdRecOptSim | buUp | buUpSim | buDownSim
+  deriving DecidableEq, Repr
+
+/-- the option word of a selection; the first four are the cases of the top-down, the last three of the bottom-up dispatcher -/
+def C07Sel.word : C07Sel → Nat
+  | .tdRec => 10 | .tdRecOpt => 14 | .tdRecSim => 26 | .tdRecOptSim => 30 | .buUp => 0 | .buUpSim => 16 | .buDownSim => 26
+
+/-- the model of a selection (on the abstract automaton).  `R` is the relation the CALLER passes with the selections that
+take one (`tdRecSim`, `tdRecOptSim`, `buUpSim`: the dispatchers pass relation and operands through, `C07_dispatch` item 4);
+`buDownSim` computes its own relation and ignores `R` -/
+def C07Sel.model (s : C07Sel) (R : Rel) (A B : TA) (fuel : Nat) : Option (Bool × Cert) :=
+  match s with
+  | .tdRec => checkInclDownRec A B fuel
+  | .tdRecOpt => inclDownOpt (removeUseless A) (removeUseless B) fuel
+  | .tdRecSim => inclDownSim A B R fuel
+  | .tdRecOptSim => inclDownSim A B R fuel
+  | .buUp => checkInclUpBdd A B fuel
+  | .buUpSim => inclUpBddSim A B R fuel
+  | .buDownSim => buDownSimRoute A B fuel
+
+/-- **every implemented BDD selection has a model whose every verdict is exact** – whatever relation the caller passes –
+**and equals the verdict of every explicit selection** (`C01Sel`, `Vata/Properties/C01.lean`) **and of the reference** on
+the same pair -/
+theorem C07_every_selection_exact (s : C07Sel) (R : Rel) (A B : TA) (fuel : Nat) (b : Bool) (c : Cert)
+    (h : s.model R A B fuel = some (b, c)) :
+    (b = true ↔ Incl A B) ∧
+    (∀ (s' : C01Sel) f' b' c', s'.model A B f' = some (b', c') → b = b') ∧
+    (∀ f₀ b₀, inclM A B f₀ = some b₀ → b = b₀) := by
+  have e : b = true ↔ Incl A B := by
+    cases s with
+    | tdRec => exact checkInclDownRec_iff h
+    | tdRecOpt => exact (inclDownOpt_iff h).trans (incl_removeUseless A B)
+    | tdRecSim => exact inclDownSim_iff h
+    | tdRecOptSim => exact inclDownSim_iff h
+    | buUp => exact checkInclUpBdd_iff h
+    | buUpSim => exact inclUpBddSim_iff (R := R) h
+    | buDownSim => exact (C07_bu_downward_sim_chain A B).1 fuel b c h
+  refine ⟨e, fun s' f' b' c' h' => ?_, fun f₀ b₀ h₀ => ?_⟩
+  · have e' := (C01_every_selection_exact_total s' A B).1 f' b' c' h'
+    cases b <;> cases b' <;> simp_all
+  · have e₀ := inclM_iff A B f₀ b₀ h₀
+    cases b <;> cases b₀ <;> simp_all
+
+-- all seven return a verdict on the trimmed, disjoint pair `exS1`, `exS2` with the relation `{(5,6)}`
+example : ∀ s : C07Sel, (s.model [(5, 6)] InclDownEx.exS1 InclDownEx.exS2 20).map (·.1) = some true := by
+  intro s; cases s <;> decide
+
+/-- the selections whose models are also TOTAL, with explicit bounds: the two top-down `NOSIM` selections and the bottom-up
+route "downward + simulation" (for the two upward selections of the bottom-up encoding no bound is proved, for the top-down
+`SIM` selections a verdict is guaranteed under the preconditions of `C07_td_downward_models_exact` only) -/
+theorem C07_total_selections (A B : TA) (R : Rel) :
+    (∀ fuel, InclDown.fuelBoundD (removeUseless A) (removeUseless B) < fuel →
+      (Incl A B → (∃ c, C07Sel.tdRec.model R A B fuel = some (true, c)) ∧ ∃ c, C07Sel.tdRecOpt.model R A B fuel = some (true, c)) ∧
+      (¬ Incl A B →
+        (∃ c, C07Sel.tdRec.model R A B fuel = some (false, c)) ∧ ∃ c, C07Sel.tdRecOpt.model R A B fuel = some (false, c))) ∧
+    (∀ fuel, InclDown.fuelBoundD (sanitize A B).1 (sanitize A B).2.1 < fuel →
+      (Incl A B → ∃ c, C07Sel.buDownSim.model R A B fuel = some (true, c)) ∧
+      (¬ Incl A B → ∃ c, C07Sel.buDownSim.model R A B fuel = some (false, c))) :=
+  ⟨fun _ hf => ⟨fun hi => ⟨(checkInclDownRec_complete A B hf).1 hi, (checkInclDownRec_complete A B hf).1 hi⟩,
+      fun hn => ⟨(checkInclDownRec_complete A B hf).2 hn, (checkInclDownRec_complete A B hf).2 hn⟩⟩,
+    (C07_bu_downward_sim_chain A B).2⟩
+
+example : InclDown.fuelBoundD (removeUseless InclDownEx.exG) (removeUseless InclDownEx.exH) < 17 := by decide
+
+/-- the seven selections are exactly the implemented cases of the two regenerated dispatchers -/
+theorem C07_selections_are_the_dispatch_cases :
+    Dispatch.sameWords (Dispatch.words Gen.tdDispatch)
+      ([C07Sel.tdRec, .tdRecOpt, .tdRecSim, .tdRecOptSim].map C07Sel.word) = true ∧
+    Dispatch.sameWords (Dispatch.words Gen.buDispatch) ([C07Sel.buUp, .buUpSim, .buDownSim].map C07Sel.word) = true :=
+  ⟨Dispatch.implemented_td, Dispatch.implemented_bu⟩
+
 /-!
+## closed since the last refresh of this file
+
+* **"the BDD simulation code has no model"** (last sentence of the item on the `SIM` selections) – closed at the rule-set
+  abstraction: `Vata.BddSim.bddDownSim` models `BDDBUTreeAutCore::ComputeDownwardSimulation(n)` as written; it returns a
+  downward simulation for every iteration order (`C07_bddsim_simulation`, `C07_bddsim_order_independent`), terminates within
+  (number of tuples)² iterations (`C07_bddsim_terminates`), is the greatest simulation restricted to the states that own a
+  top-down entry (`C07_bddsim_greatest_on_entry_states`) and exactly `downSimRef` on the sanitised union
+  (`C07_bddsim_bu_downward_sim_exact`); the whole route as one exact and total function: `C07_bu_downward_sim_chain`.
+* **"the top-down tables and the inversion have no model"** (item on the encodings) – closed in
+  `Vata/Properties/C08_Tables.lean`: `BddAbsTD.TableTD` (16 symbol + 6 arity variables), load / dump (`C08_load_dump`,
+  `C08_td_addTransition`), `GetTopDownAut` (`C08_getTopDownAut`: same abstract rules up to parents that are not collected, same
+  language); the three views the simulation model takes of a bottom-up automaton are linked to these tables by
+  `BddSim.tuples_bridge`, `BddSim.tdStates_bridge`, `BddSim.up_bridge`.
+* The property as ONE statement over the seven selections, including "the verdict equals the one obtained in the explicit
+  encoding" against all eight explicit selections: `C07_every_selection_exact`, `C07_total_selections`,
+  `C07_selections_are_the_dispatch_cases`.
+* Totality of the reference the verdicts are compared with: `C07_reference_total` (`Vata/Properties/RefTotal.lean`).
+* The containers of `CheckUpwardTreeInclusion` / `CheckDownwardTreeInclusion` (macro-state cache with its memo tables,
+  `OrdVector`, antichains) have class models with history theorems, and the deleter wiring of `tree_incl_down.hh` is
+  re-checked on every run (`Util_Cache_memo_sound`, `Vata.CacheWiring.cache_wiring_is_lib`, `Util_OrdVector_history`,
+  `Util_Antichain_offer_history`); how the command line reaches the option words of the two dispatchers:
+  `Util_CliArgs_every_selection_reachable_partial`, `Util_CliArgs_unimplemented`.
+
 ## not yet proved
 
-* **The encodings themselves.**  All models work on the abstract automaton; the MTBDD transition tables, the traversals
-  `ForeachUpSymbolFromTupleAndTupleSetDo` / `ForeachDownSymbolFromStateAndStateSetDo` as MTBDD applies, the 16-bit symbol
-  encoding and `GetTopDownAut` (inversion of a bottom-up automaton) are replaced by "the rules of the automaton".  For the
-  bottom-up tables the link is C08 (`HasRule (ofRules rs) … ↔ rule ∈ rs`); the top-down tables and the inversion have no
-  model.  Hence "the BDD verdict is exact" is a theorem about models that read the encoding as the identity.
+* **The encodings themselves.**  All inclusion models work on the abstract automaton.  The tables of both encodings and
+  `GetTopDownAut` are now linked to the abstract automaton (C08, see above), but the traversals
+  `ForeachUpSymbolFromTupleAndTupleSetDo` / `ForeachDownSymbolFromStateAndStateSetDo` as MTBDD applies over several
+  diagrams at once are still replaced by "for every rule of the automaton": that the apply functors act pointwise is taken
+  from C17 / C08 (`Vata/Proofs/MtbddOps.lean`), no theorem says that the collected (symbol, states) events of the real
+  traversal are the rules the models iterate over.  Hence "the BDD verdict is exact" is a theorem about models that read
+  the encoding through its abstraction.
 * **No termination bound for the bottom-up upward exploration** `InclUpBdd.run`: every verdict is exact and `none` means
   "fuel exhausted" (`C07_bu_upward_exploration_certified`), but no fuel is proved to suffice (the explicit upward model
-  of C01 has such a bound).
+  of C01 has such a bound).  So `buUp` and `buUpSim` are missing from `C07_total_selections`.
 * The bottom-up selection **upward with simulation** (`ANTICHAINS_UP_SIM`): modelled by `inclUpBddSim`, which ignores the
   relation because the C++ callee does (`C07_bu_upward_sim_exact`); that the parameter is unused is a reading of
   `src/tree_incl_up.hh`, not a theorem.  The library entry point does not sanitise the operands for this selection
   (`C07_dispatch`, item 4); `inclUpBdd` is exact on any operands but a verdict is only guaranteed on trimmed ones.
 * **The `SIM` selections of the top-down encoding outside their preconditions**: exactness is unconditional, a verdict
   is guaranteed only for a relation that passes the validation, disjoint operands and productive rule children
-  (`C07_td_downward_models_exact`); the C++ passes the caller's relation through unchecked.  That the relation computed by
-  `ComputeSimulation` on the BDD union inside the bottom-up route is `downSimRef` of the union is C04 (explicit encoding;
-  the BDD simulation code has no model).
+  (`C07_td_downward_models_exact`); the C++ passes the caller's relation through unchecked.  From the command line these
+  two selections cannot be run to a verdict at all: with `sim=yes` the CLI first calls `ComputeSimulation` of the
+  representation, which throws `NotImplementedException` for `bdd-td` (read off `bdd_td_tree_aut_sim.cc`, see the end of
+  `Vata/Properties/Util_CliArgs.lean`); only a library caller can reach them.
+* The simulation model reads the MTBDDs as functions symbol ↦ leaf and the hash containers as lists (all iteration orders
+  are covered, `C07_bddsim_order_independent`); the upward simulation of the BDD encodings has no model (none is
+  implemented for `bdd-td`; the bottom-up `ANTICHAINS_UP_SIM` ignores its relation anyway).
 * "With or without the implication cache": identified by definition, see C01.
 * **Link between the dispatch tables and the models.**  `C07_dispatch` is about the tables regenerated from the sources
   (and "throws" is the table's record that the `default` branch contains a `throw`); which Lean model stands for which
-  callee is the reading given in the header, not a theorem.
+  callee (`C07Sel.model`) is the reading given in the header, not a theorem.
 -/
 end Vata.Props
